@@ -38,10 +38,16 @@ def crosscheck_contract(c, n=40, seed=0):
                 kind, fn, rest = load_target(c, it, repo_root())
                 if c.setup:
                     c.setup(g)
+                nested_fn = None
                 if kind == "nested":
                     if c.native_entry is None:
                         return runs, bad, "nested target without native entry"
-                    g.ghost["outer"] = Args(**c.outer_inputs(g))
+                    if mode == "interp" and "expr" not in getattr(fn, "__code__", None).co_varnames[:fn.__code__.co_argcount]:
+                        # run the enclosing function up to the nested def (consumes the
+                        # same random leaves as outer_inputs in native mode)
+                        nested_fn = _bind_nested(c, it, fn, rest, g)
+                    else:
+                        g.ghost["outer"] = Args(**c.outer_inputs(g))
                 argd = dict(c.gen(g)) if c.gen else {}
                 ghost = argd.pop("__ghost__", {})
                 a = Args(**argd); a.ghost = Args(**ghost); a.g = g
@@ -58,7 +64,15 @@ def crosscheck_contract(c, n=40, seed=0):
                             pos = argd.pop("__args__", None)
                             r = fn(*pos, **argd) if pos is not None else fn(**argd)
                     else:
-                        if kind == "nested":
+                        if nested_fn is not None:
+                            pos = argd.get("__args__")
+                            if c.entry is not None:
+                                r = c.entry(g, it, nested_fn, a)
+                            elif pos is not None:
+                                r = it.call(nested_fn, list(pos), {x: v for x, v in argd.items() if x != "__args__"})
+                            else:
+                                r = it.call(nested_fn, [], dict(argd))
+                        elif kind == "nested":
                             # interpret the enclosing function on the same inputs
                             outer = g.ghost["outer"]
                             r = it.call(fn, [], dict(outer.__dict__, expr=a.expr)) if hasattr(a, "expr") else None
